@@ -15,9 +15,12 @@ def run(ctx):
         dscommon.run_family(ctx, "C03K2", fmt="text", nontrivial_fn=lambda o: bool(o["opts"]["given"]), cli_lists=250)
         dscommon.run_family(ctx, "C03ClimK1", fmt="text", nontrivial_fn=lambda o: bool(o["opts"]["given"]), cli_lists=40)
         dscommon.run_family(ctx, "C03K1", fmt="netcdf", nontrivial_fn=lambda o: bool(o["opts"]["given"]))
+        # every input of ONE Data object in turn: a selection (-obsrange above all) holds for every input, not only for the first one asked
+        dscommon.run_family(ctx, "C03K1", fmt="text", fresh=False, nontrivial_fn=lambda o: bool(o["opts"]["given"]))
     else:
         dscommon.run_family(ctx, "C03K3", fmt="text", nontrivial_fn=lambda o: bool(o["opts"]["given"]), timeout_s=1800)
         dscommon.run_family(ctx, "C03K2", fmt="netcdf", nontrivial_fn=lambda o: bool(o["opts"]["given"]), cli_lists=10000)
         dscommon.run_family(ctx, "C03ClimK2", fmt="text", nontrivial_fn=lambda o: bool(o["opts"]["given"]))
+        dscommon.run_family(ctx, "C03K2", fmt="text", fresh=False, nontrivial_fn=lambda o: bool(o["opts"]["given"]))
         ctx.exhaustive = True
     par.clean_workdirs()
